@@ -4,10 +4,6 @@ import "go.brendoncarroll.net/p2p"
 
 // C15: framing is an injection and round-trips for every channel id and payload.
 
-func vClone(x []byte) []byte { return append([]byte{}, x...) }
-
-func vConcat(a, b []byte) []byte { return append(vClone(a), b...) }
-
 // verif: cover=roundtrip bounds="channel name 0..4 bytes (any content), payload 2 chunks of 0..3 and 0..2 bytes"
 func VH_C15_stringRoundTrip() bool {
 	cb := vBytes(4)
